@@ -1106,7 +1106,11 @@ def remove_redundant_else(source: str) -> str:
         ranges = [core.get_charnos(child, source) for child in node.orelse]
         start = min((s for (s, _) in ranges))
         end = max((e for (_, e) in ranges))
-        last_else = list(re.finditer("(?<![^\\n]) *else: *\\n?", source[:start]))[-1]
+        else_lines = list(re.finditer("(?<![^\\n]) *else: *\\n?", source[:start]))
+        if not else_lines:
+            continue  # The else line is written in a way that is not recognized, e.g. "else :"
+
+        last_else = else_lines[-1]
         indent = len(re.findall("^ *", last_else.group())[0])
         modified_orelse = " " * indent + re.sub("(?<![^\\n])    ", "", source[start:end]).lstrip()
 
